@@ -388,3 +388,24 @@ PLANS["C06"] = {
                 need_set("failure_kinds", 40), need("word:magic", 50000), need("word:find", 50000), need("word:seek", 50000),
                 need("word:cstr", 20000), need("word:nulbytestr", 20000)],
 }
+
+PLANS["C07"] = {
+    "jobs": {
+        "quick": [("", "release", 200000), ("", "dev", 30000)],
+        "thorough": [("", "release", 8000000), ("", "dev", 1200000)],
+    },
+    "rule": "a case is a record of 1..24 typed fields: integers of width 1..128 (signed and unsigned, through int!/uint! and the fixed "
+            "uN!/iN! words with and without explicit byte order; values 0, -1, i128 min/max, the sign-bit value and its predecessor, "
+            "random), f32/f64 (zeros, infinities, subnormals, max, random bit patterns; through fN! and float!), raw bit-strings of "
+            "0..70 bits, strings (ASCII, multi-byte, with newline and quote), single bytes and nested byte lists, with big/little "
+            "switches between fields so that fields start at every bit alignment. The record is packed with one (randomly nested) "
+            "[ ... ] >bitstr, compared bit for bit with the harness's own layout, parsed back with the matching read words in the same "
+            "byte order (values must equal the originals, remain must be 0), then emitted again split at random positions over several "
+            "emit calls (single bit-strings directly, groups through >bitstr) with interception on: output must equal the layout and "
+            "output-length its length. distinct = distinct (field kinds, alignments, layout)",
+    "assumptions": ["little-endian for widths that are not a byte multiple is defined on the value's 8-bit groups, as in C05",
+                    "unsigned fields are at most 127 bits wide (the i128 cell cannot hold a larger unsigned value); f32 fields hold "
+                    "f32-representable values; NaN is not packed through the language (payload rules of the f64->f32 cast are not the subject)"],
+    "require": [need("records_parsed_back", 100000), need("emit_sequences", 100000), need("emit_calls", 300000), need_set("field_kinds", 120),
+                need("field:int-odd", 300000), need("field:float32", 50000), need("field:float64", 50000), need("field:string", 100000)],
+}
